@@ -342,6 +342,40 @@ ElemElement::executeChildElement(
     return !(element->getXSLToken() == StylesheetConstructionContext::ELEMNAME_ATTRIBUTE
              && executionContext.getSkipElementAttributes() == true);
 }
+
+
+
+const ElemTemplateElement*
+ElemElement::getFirstChildElemToExecute(StylesheetExecutionContext&     executionContext) const
+{
+    // When the element is not created, ElemUse::startElement() was not
+    // called, and the attribute sets are not used...
+    if (executionContext.getSkipElementAttributes() == true)
+    {
+        return ElemTemplateElement::getFirstChildElemToExecute(executionContext);
+    }
+    else
+    {
+        return ElemUse::getFirstChildElemToExecute(executionContext);
+    }
+}
+
+
+
+const ElemTemplateElement*
+ElemElement::getNextChildElemToExecute(
+            StylesheetExecutionContext&     executionContext,
+            const ElemTemplateElement*      currentElem) const
+{
+    if (executionContext.getSkipElementAttributes() == true)
+    {
+        return ElemTemplateElement::getNextChildElemToExecute(executionContext, currentElem);
+    }
+    else
+    {
+        return ElemUse::getNextChildElemToExecute(executionContext, currentElem);
+    }
+}
 #endif
 
 
